@@ -159,6 +159,13 @@ fn spawn_metric_reporter<V: MetricsRsVersion + ?Sized>(
         // Shutdown the background publisher for metrics and flush all data to disk.
         match shutdown_handle {
             ShutdownHandle::SyncHandle(shutdown) => {
+                // Verification hook: tokio's blocking pool is a pool of real threads that the
+                // simulator does not own (the reporter's thread would wait, really blocked, for a
+                // shutdown that needs other simulated threads to run). Under `--cfg metrique_verif`
+                // the shutdown closure runs on the reporter task's own thread instead.
+                #[cfg(metrique_verif)]
+                shutdown();
+                #[cfg(not(metrique_verif))]
                 if let Err(e) = task::spawn_blocking(shutdown).await {
                     // TODO: recovering the panic message here is not trivial.
                     tracing::error!(
